@@ -91,7 +91,9 @@ def header_block(part):
     fn = []
     if part.filename is not None:
         fn.append(_param('filename', part.filename, st.get('token', False)))
-    if part.ext is not None:
+    if st.get('ext_raw') is not None:
+        fn.append('filename*=' + st['ext_raw'])       # literal ext-value (possibly undecodable in its declared charset)
+    elif part.ext is not None:
         fn.append('filename*=' + ext_value(*part.ext, enc=st.get('ext_enc', 'attr')))
     if st.get('ext_first'):
         fn.reverse()
@@ -116,9 +118,41 @@ def header_block(part):
     return CRLF.join(out)
 
 
+def model_ext(raw):
+    """RFC 5987 3.2.1 reading of a literal ext-value: -> ('ok', text) | ('bad',) when the octets are not valid in the
+    declared charset or the charset is unknown.  Only for grammatical values (charset'lang'attr-chars / %XX)."""
+    charset, _lang, value = raw.split("'", 2)
+    out = bytearray()
+    i = 0
+    while i < len(value):
+        if value[i] == '%':
+            out.append(int(value[i + 1:i + 3], 16))
+            i += 3
+        else:
+            assert value[i] in ATTR_CHARS
+            out.append(ord(value[i]))
+            i += 1
+    try:
+        return ('ok', bytes(out).decode(charset))
+    except (LookupError, UnicodeDecodeError):
+        return ('bad',)
+
+
+def ext_undecodable(part):
+    raw = part.style.get('ext_raw')
+    return raw is not None and model_ext(raw)[0] == 'bad'
+
+
 def expected(part):
-    """(name, filename, content_type, content) a parser must report (RFC 7578 4.2/4.4, RFC 6266 4.3)."""
-    filename = part.ext[2] if part.ext is not None else part.filename
+    """(name, filename, content_type, content) a parser must report (RFC 7578 4.2/4.4, RFC 6266 4.3).
+    For an undecodable filename* the only reportable name is the plain filename= fallback (None when absent);
+    refusing the part with the multipart parse error is the other admissible outcome (decided by the check)."""
+    raw = part.style.get('ext_raw')
+    if raw is not None:
+        m = model_ext(raw)
+        filename = m[1] if m[0] == 'ok' else part.filename
+    else:
+        filename = part.ext[2] if part.ext is not None else part.filename
     return (part.name, filename, part.ctype if part.ctype is not None else 'text/plain', part.content)
 
 
